@@ -274,6 +274,9 @@ class AbstractTAP(AbstractScriptedAgent):
         :type timestep: int
         :rtype bool
         """
+        if timestep >= len(self.history):
+            # The first execution slot is the first step of the episode: no previous action to look back at.
+            return True
         if self.history[timestep].response.status != "success":
             self.logger.info(
                 f"{self.config.ref} has failed to successfully carry out {self.current_kill_chain_stage.name}"
